@@ -368,3 +368,100 @@ class RecordInert(Unit):
 
 
 UNITS += [RunGeneration(), RecordInert()]
+
+
+# =========================================================================================== _run_S (generation order, C07 / C09 / C13)
+class NdShape:
+    def __init__(self, dims):
+        self.dims = dims
+
+    def pyvc_getattr(self, ex, attr):
+        if attr == "shape":
+            return self.dims
+        raise Unsupported(attr)
+
+
+class RunS(Unit):
+    """one partition: the step counter is clipped, the episode timings are sliced at that step, generations run in index order, each on the
+    previous one's result, the supervisor's inputs are updated last, step + 1"""
+    name = "_run_S"
+    target = PR + "::make_run_partition_excl_supervisor"
+    props = ("C07", "C09", "C13", "C01")
+
+    def configs(self):
+        yield "no record", dict(record=False)
+        yield "record", dict(record=True)
+
+    def run(self, ctx):
+        ex, cfg = ctx.ex, ctx.cfg
+        E, P = z3.Int("max_eps"), z3.Int("max_step")
+        ctx.require(z3.And(E >= 1, P >= 1))
+        mk = lambda n: Rec("BaseNode", dict(name=n, rate=z3.Real(f"{n}.rate"), inputs={}, outputs={}), module=None)
+        nodes = {"a": mk("a"), "b": mk("b"), "sup": mk("sup")}
+        layout = {"a_0": ("a", 0), "b_0": ("b", 0), "a_1": ("a", 1), "sup_0": ("sup", 2)}    # non-uniform generations: {a, b}, {a}, {sup}
+        fslots = {s: Rec("SlotVertex", dict(seq=None, ts_start=None, ts_end=None, windows={}, run=NdShape((E, P)), kind=k, generation=g), module=BASE, frozen=True) for s, (k, g) in layout.items()}
+        timings = Rec("Timings", dict(slots=fslots), module=BASE, frozen=True)
+        eslots = {s: Rec("SlotVertex", dict(seq=Arr.fresh(f"te.{s}.seq", INT, P), ts_start=Arr.fresh(f"te.{s}.ts_start", REAL, P), ts_end=Arr.fresh(f"te.{s}.ts_end", REAL, P), windows={},
+                                            run=Arr.fresh(f"te.{s}.run", BOOL, P), kind=k, generation=g), module=BASE, frozen=True) for s, (k, g) in layout.items()}
+        rows = z3.Int("record.rows")
+        ctx.require(rows >= 1)
+        aux = {}
+        if cfg["record"]:
+            steps = {k: mk_steps_record(f"rec.{k}", rows, aw_rs(True)) for k in nodes}
+            aux = {"record": Rec("EpisodeRecord", dict(nodes={k: Rec("NodeRecord", dict(info=None, clock=None, real_time_factor=0, ts_start=0.0, params=None, inputs=None, steps=steps[k]), module=BASE, frozen=True) for k in nodes}), module=BASE, frozen=True)}
+        step = z3.Int("gs.step")
+        mkgs = lambda tag, st: Rec("GraphState", dict(step=st, eps=z3.Int("gs.eps"), rng={k: z3.Const(f"{tag}.{k}.rng", Leaf) for k in nodes}, seq={k: z3.Int(f"{tag}.{k}.seq") for k in nodes},
+                                                      ts={k: z3.Real(f"{tag}.{k}.ts") for k in nodes}, params={k: z3.Const(f"{tag}.{k}.params", Leaf) for k in nodes},
+                                                      state={k: z3.Const(f"{tag}.{k}.state", Leaf) for k in nodes}, inputs={k: {} for k in nodes},
+                                                      timings_eps=Rec("Timings", dict(slots=eslots), module=BASE, frozen=True), buffer={k: [Arr.fresh(f"{tag}.buf.{k}", Leaf, z3.Int(f"size.{k}"))] for k in nodes}, aux=aux), module=BASE, frozen=True)
+        gs0 = mkgs("g0", step)
+        cl = z3.If(step < 0, 0, z3.If(step > P - 1, P - 1, step))
+        seqsup = z3.Select(eslots["sup_0"].f["seq"].a, cl)
+        ctx.require(z3.And(0 <= seqsup, seqsup < rows, cl < rows))     # Graph.init_record sizes the supervisor's record by its number of steps
+        gen_calls, upd_calls = [], []
+
+        def run_generation(ex_, o, a, k, n):
+            gs_in, tg = a
+            gen_calls.append((gs_in, dict(tg)))
+            out = mkgs(f"g{len(gen_calls)}", gs_in.f["step"])
+            return out, out
+
+        def update_inputs(ex_, o, a, k, n):
+            gs_in, t = a
+            upd_calls.append((gs_in, t))
+            return Rec("StepState", dict(rng=z3.Const("sup.new.rng", Leaf), state=z3.Const("sup.new.state", Leaf), params=z3.Const("sup.new.params", Leaf), inputs={"x": z3.Const("sup.new.inputs", Leaf)},
+                                         eps=gs_in.f["eps"], seq=t.f["seq"], ts=t.f["ts_start"]), module=BASE, frozen=True)
+        ex.summaries["_run_generation"] = run_generation
+        ex.summaries["_update_inputs"] = update_inputs
+        run_S = ctx.call(args=[nodes, timings, None, "sup_0"])
+        out = ex.call(run_S, [gs0], {})
+        ctx.ensure("C07 generations are executed in index order, one call per generation (supervisor generation excluded)",
+                   z3.BoolVal(len(gen_calls) == 2 and set(gen_calls[0][1]) == {"a_0", "b_0"} and set(gen_calls[1][1]) == {"a_1"}))
+        if len(gen_calls) != 2 or len(upd_calls) != 1:
+            ctx.ensure("the supervisor's inputs are updated exactly once", z3.BoolVal(len(upd_calls) == 1))
+            return
+        ctx.ensure("C07/C09 each generation runs on the previous generation's result (state is threaded)", z3.BoolVal(gen_calls[1][0] is not gen_calls[0][0] and gen_calls[1][0].f["state"]["a"].eq(z3.Const("g1.a.state", Leaf))))
+        for (gs_in, tg) in gen_calls:
+            for sname, t in tg.items():
+                es = eslots[sname]
+                ctx.ensure(f"C07/C01 slot {sname} is handed the episode's timings of the (clipped) current step: its own seq, start / end time and run mask",
+                           z3.And(toz(t.f["seq"]) == z3.Select(es.f["seq"].a, cl), toz(t.f["ts_start"]) == z3.Select(es.f["ts_start"].a, cl), toz(t.f["ts_end"]) == z3.Select(es.f["ts_end"].a, cl),
+                                  toz(t.f["run"]) == z3.Select(es.f["run"].a, cl), z3.BoolVal(t.f["kind"] == es.f["kind"])))
+        ug, ut = upd_calls[0]
+        ctx.ensure("C07 the supervisor's inputs are updated last, from the state after the last generation, with the supervisor slot's timings of this step",
+                   z3.And(z3.BoolVal(ug.f["state"]["a"].eq(z3.Const("g2.a.state", Leaf))), toz(ut.f["seq"]) == seqsup))
+        ctx.ensure("C09 step counter: clipped into [0, max_step - 1], then + 1", toz(out.f["step"]) == cl + 1)
+        ctx.ensure("C09 the supervisor's step state is replaced by the freshly prepared one; other nodes keep the last generation's result",
+                   z3.And(toz(out.f["state"]["sup"]) == z3.Const("sup.new.state", Leaf), toz(out.f["seq"]["sup"]) == seqsup, toz(out.f["state"]["a"]) == z3.Const("g2.a.state", Leaf), toz(out.f["state"]["b"]) == z3.Const("g2.b.state", Leaf)))
+        if cfg["record"]:
+            r0 = aux["record"].f["nodes"]["sup"].f["steps"]
+            r1 = out.f["aux"]["record"].f["nodes"]["sup"].f["steps"]
+            j = z3.Int("j!rS")
+            gstep = cl     # row index used by the code: graph_state.step (already clipped)
+            ctx.ensure("C13 the supervisor's record row of this step holds the prepared step state (seq, start time, rng, state before its step); other rows untouched; output column left for run_supervisor",
+                       z3.And(z3.Select(r1.f["seq"].a, gstep) == seqsup, z3.Select(r1.f["rng"].a, gstep) == z3.Const("sup.new.rng", Leaf), z3.Select(r1.f["state"].a, gstep) == z3.Const("sup.new.state", Leaf),
+                              z3.ForAll([j], z3.Implies(z3.And(0 <= j, j < rows, j != gstep), z3.Select(r1.f["seq"].a, j) == z3.Select(r0.f["seq"].a, j))),
+                              toz(aw.same(r1.f["output"], r0.f["output"]))))
+
+
+UNITS.append(RunS())
